@@ -33,6 +33,19 @@ def _init(cls):
         ensures={'domain-stored': 'same(self.domain, domain)'})
 
 
+# the constant tables every estimator starts from: on the given domain, of the domain's shape
+def _const(fn):
+    return dict(params=dict(domain='obj:Domain'), requires=[], pure={'np.zeros': 'obj', 'np.ones': 'obj', 'Factor': 'obj:Factor'},
+                sites=[dict(func='np.' + fn, arg=0, name='%s:table-of-the-domains-shape' % fn, spec='same(__arg, domain.shape)'),
+                       dict(func='Factor', arg=0, name='%s:factor-on-the-given-domain' % fn, spec='same(__arg, domain)')],
+                ensures={'%s:the-constant-table-on-the-domain' % fn: 'same(result, Factor(domain, np.%s(domain.shape)))' % fn})
+
+
+UNIFORM = dict(params=dict(domain='obj:Domain'), requires=[], pure={'Factor.ones': 'obj', '.size': 'real'}, numeric_objects=True, division='abort',
+               ensures={'uniform:ones-divided-by-the-number-of-cells': 'same(result, Factor.ones(domain) / domain.size())'})
+CONST_ITEMS = [('src/mbi/factor.py', 'Factor.zeros', _const('zeros')), ('src/mbi/factor.py', 'Factor.ones', _const('ones')),
+               ('src/mbi/factor.py', 'Factor.uniform', UNIFORM)]
+
 ITEMS = [('src/mbi/factor.py', 'Factor.active', ACTIVE), ('src/mbi/inference.py', 'FactoredInference.__init__', _init('FactoredInference')),
          ('src/mbi/local_inference.py', 'LocalInference.__init__', _init('LocalInference'))]
 
